@@ -11,6 +11,7 @@ import (
 	"strings"
 	"sync"
 	"sync/atomic"
+	"testing/synctest"
 	"time"
 
 	"github.com/zishang520/engine.io-go-parser/packet"
@@ -190,8 +191,9 @@ type World struct {
 
 	onConn func(engine.Socket)
 	// OnHook, if set, sees every hook arrival routed to this world.
-	OnHook func(point string, args []any)
-	cands  []*Client
+	OnHook  func(point string, args []any)
+	cands   []*Client
+	clients []*Client
 }
 
 type lockedWriter struct {
@@ -416,6 +418,46 @@ func (w *World) Shutdown() {
 	w.HTTP.Close()
 	w.L.Close()
 	w.Gate.Close()
+}
+
+// Finish ends a scenario so that nothing of it survives the bubble: every client actor is
+// stopped, every session closed, the HTTP server shut down, and virtual time is advanced
+// past every bounded timer and sleeping loop (heartbeats, close and upgrade timeouts, the
+// client's own pinger).  Goroutines that are still blocked when a bubble's main function
+// returns stay parked for ever and pin the whole world in memory.
+func (w *World) Finish() {
+	w.mu.Lock()
+	cs := append([]*Client(nil), w.clients...)
+	w.clients = nil
+	w.mu.Unlock()
+	for _, c := range cs {
+		c.Stop()
+	}
+	w.StopCandidates()
+	func() {
+		defer func() { recover() }()
+		w.Eng.Close()
+	}()
+	w.Shutdown()
+	time.Sleep(3 * time.Minute)
+	synctest.Wait()
+}
+
+// FinishReal is Finish for worlds that run outside a bubble (real time): no waiting.
+func (w *World) FinishReal() {
+	w.mu.Lock()
+	cs := append([]*Client(nil), w.clients...)
+	w.clients = nil
+	w.mu.Unlock()
+	for _, c := range cs {
+		c.Stop()
+	}
+	w.StopCandidates()
+	func() {
+		defer func() { recover() }()
+		w.Eng.Close()
+	}()
+	w.Shutdown()
 }
 
 // Dial opens a raw connection to the server.
